@@ -219,15 +219,23 @@ def normalize_picture(source: str) -> list[dict[str, str]]:
         re.IGNORECASE,
     )
 
+    if not source.isascii():
+        raise ValueError(f"invalid characters in PIC {source!r}")
     matches = list(pic_pattern.finditer(source))
-    if matches[-1].end() != len(source):
-        raise ValueError(
-            f"invalid characters {source[matches[-1].end():]!r} in PIC {source!r}"
-        )
+    # The matches must cover the picture; nothing may be skipped.
+    ending = 0
+    for m in matches:
+        if m.start() != ending:
+            break
+        ending = m.end()
+    if ending != len(source):
+        raise ValueError(f"invalid characters {source[ending:]!r} in PIC {source!r}")
 
     non_empty = map(pass_non_empty, (m.groupdict() for m in matches))
-    normalized = map(expand_repeat, non_empty)
-    return list(normalized)
+    normalized = list(map(expand_repeat, non_empty))
+    if any(elt.get("digit", "x") == "" for elt in normalized):
+        raise ValueError(f"zero repeat count in PIC {source!r}")
+    return normalized
 
 
 # Most clauses are simple strings.
